@@ -96,6 +96,6 @@ func parseBag(s *slip.Scope, obj *flavors.Instance, value, path slip.Object, dep
 	if x == nil {
 		obj.Any = v
 	} else {
-		x.MustSet(obj.Any, v)
+		setAt(obj, x, v)
 	}
 }
